@@ -148,3 +148,11 @@ Theorem C09_v2_release_reaches_every_active_chord : forall q npress achs dq q' a
   Forall2 (no_longer_waits (snd (q_coord qd))) achs achs'.
 Proof. exact release_reaches_every_active_chord. Qed.
 Print Assumptions C09_v2_release_reaches_every_active_chord.
+
+(* defchordsv2, the countdown that lets drain_inputs skip ticks: an activation clears it (the presses it was computed for are
+   consumed), so later events are never compared against it (defect repaired by f65267c) *)
+From KV Require Import Proofs.C09V2Countdown.
+Theorem C09_v2_activation_clears_countdown : forall c layer c',
+  process_presses c layer = Ok c' -> (length (cv_active c) < length (cv_active c'))%nat -> cv_until_change c' = 0.
+Proof. exact activation_clears_countdown. Qed.
+Print Assumptions C09_v2_activation_clears_countdown.
